@@ -116,6 +116,9 @@ def constructed(rng):
 def run(rec, cfg):
     rec.accept = {"eval", "eval-missing", "eval-eq-false", "eval-div0"}
     ME.attach_evaluate("C05")
+    from ..oracles import exact as X
+
+    X.MAX_BITS, X.MAX_EXP, X.MAX_FACT = 70000, 70000, 3000   # exact integers of up to ~20000 digits in this check
     rng = cfg.rng("c05")
     rules = MR.rule_instances()
     corp = [s for s in WT.corpus()]
@@ -141,7 +144,11 @@ def run(rec, cfg):
                 evaluate(rec, root, context_for(rng, names, mode))
             rec.arm("eval:long-expression")
     fixed = ["(4 + 4) * x^2", "(6 + 9) * 1000000000000000000000", "(12 + 18) * y^3 + 1", "(4 + 6) * x * y", "x^2 * (8 + 12)", "2^64", "3^40", "x^2",
-             "2^62 * 4", "2^-3", "x^y", "10^30 * 10^30 + 1", "20! * 20!", "(x + 1)^64", "sgn(x - y) * 2^70"]
+             "2^62 * 4", "2^-3", "x^y", "10^30 * 10^30 + 1", "20! * 20!", "(x + 1)^64", "sgn(x - y) * 2^70",
+             # exact integers of several thousand digits (beyond the interpreter's int->str digit limit), alone and
+             # as the common value of TRUE equations, and as the two values of false ones
+             "2000! = 2000 * 1999!", "2^15000 = 4^7500", "10^4300 = 10 * 10^4299", "10^4299 = 10 * 10^4298", "2^15000", "1500! - 1500 * 1499!",
+             "2^15000 = 4^7500 + 1", "(x + 1)^6000 = (x + 1)^3000 * (x + 1)^3000", "x^5000 * x = x^5001", "3^9100 - 3^9100 + x", "1600! = 1600!"]
     for i in range(n):
         if cfg.out_of_time():
             rec.truncated = True
@@ -201,6 +208,9 @@ def run(rec, cfg):
 
 def replay(rec, cfg, w):
     ME.attach_evaluate("C05")
+    from ..oracles import exact as X
+
+    X.MAX_BITS, X.MAX_EXP, X.MAX_FACT = 70000, 70000, 3000
     root = S.build(S.from_json(w["tree"]))
     ctx = {}
     if isinstance(w.get("context"), dict):
